@@ -421,7 +421,7 @@ func runLogProp(cfg logRunCfg) func(seed int64, tier string, outDir string) *res
 			}
 		}
 		// scenario monitors built on LogOptions.Entries (forged entries, shared entry maps)
-		if replayFile == "" && (cfg.prop == "C06" || cfg.prop == "C05" || cfg.prop == "C03" || cfg.prop == "C02" || cfg.prop == "C04" || cfg.prop == "C01") {
+		if replayFile == "" && (cfg.prop == "C06" || cfg.prop == "C05" || cfg.prop == "C03" || cfg.prop == "C02" || cfg.prop == "C04" || cfg.prop == "C01" || cfg.prop == "C16") {
 			st := &c06Stats{kinds: map[string]int{}}
 			xf := func(prop, mon, key, detail string, c interface{}) {
 				if prop == cfg.prop || contains(cfg.alsoReport, prop) {
@@ -441,6 +441,8 @@ func runLogProp(cfg logRunCfg) func(seed int64, tier string, outDir string) *res
 			}
 			if cfg.prop == "C04" {
 				runAppendScenarios(xr, na, st, xf)
+			} else if cfg.prop == "C16" {
+				runGapScenarios(xr, na/5+1, st, xf)
 			} else if cfg.prop != "C06" {
 				runAliasScenarios(xr, na, st, xf)
 				runPartialJoinScenarios(xr, na, st, xf)
